@@ -45,3 +45,138 @@ def c12(prop, tier, seed, a):
 
 HANDLERS = {"C12": c12}
 REPLAYERS = {}
+
+
+def c19(prop, tier, seed, a):
+    """result half: CBMC jobs (family tsafe); data-independence half: E2 executor on clang's IR at O0..O3"""
+    from . import irchecks, core
+    t0 = time.time()
+    chk = _check_mod()
+    res = irchecks.c19_ct(tier)
+    viol, unsup, nq, nok = [], [], 0, 0
+    repdir = os.path.join(VERIF, "evidence", "replay")
+    os.makedirs(repdir, exist_ok=True)
+    for f in os.listdir(repdir):
+        if f.startswith(prop + "-ct"):
+            os.unlink(os.path.join(repdir, f))
+    k = 0
+    for r in res:
+        nq += r.get("solver_queries", 0) or 0
+        fs = [f for f in r.get("findings", []) if f["kind"] in ("branch", "address", "division")]
+        if fs:
+            k += 1
+            rp = irchecks.c19_replay(fs[0], r, repdir, k) if fs[0]["kind"] == "branch" and k <= 4 else {"confirmed": None, "note": "not replayed"}
+            rec = {"fn": r["fn"], "opt": "O" + r["opt"], "n": r["n"], "finding": fs[0], "replay_result": rp}
+            if rp.get("confirmed") or (rp.get("confirmed") is None and k > 4):
+                viol.append(rec)
+            else:
+                unsup.append(dict(rec, note="dependence found on the IR but instruction counts did not differ natively"))
+        elif not r.get("ok"):
+            unsup.append({"fn": r.get("fn"), "opt": r.get("opt"), "n": r.get("n"), "note": r.get("unsupported")})
+        else:
+            nok += 1
+    lines = []
+    for i, v in enumerate(viol[:6]):
+        path = os.path.join(repdir, "%s-ct-%d.json" % (prop, i))
+        json.dump(v, open(path, "w"), indent=1, default=str)
+        lines.append("VIOLATION property=%s replay=%s" % (prop, path))
+        print("  violation: %s at %s, n=%d: %s (%s)" % (v["fn"], v["opt"], v["n"], v["finding"]["msg"], v["finding"].get("where")))
+    extra = {"data_independence": {"engine": "llsym (own executor of clang-14 IR, z3)", "functions": [c[0] for c in irchecks.CT_FUNCS],
+                                   "runs": len(res), "independent": nok, "violations": len(viol), "undecided": unsup[:10],
+                                   "solver_queries": nq,
+                                   "question": "for every branch/switch condition, load/store address and division operand: can it take two "
+                                               "different values for two contents of the regions (n fixed)?"},
+             "assumptions_extra": ["data independence is decided on clang-14's scalar IR (-fno-vectorize -fno-slp-vectorize -fno-unroll-loops) at the "
+                                   "listed -O levels; gcc and the machine-code lowering (cmov vs branch) are outside the claim"]}
+    jobs = chk.collect_jobs(prop, tier, getattr(a, "fn", None), None)
+    for l in lines:
+        print(l)
+    rc2, _ = chk.run_jobs(prop, tier, seed, jobs, a, t0, extra_evidence=extra)
+    if viol:
+        _bump(prop, len(viol))
+    print("%s data independence: %d executions, %d independent, %d violations, %d undecided" % (prop, len(res), nok, len(viol), len(unsup)))
+    return 1 if (viol or rc2) else 0
+
+
+def _bump(prop, n):
+    p = os.path.join(VERIF, "evidence", prop + ".json")
+    try:
+        ev = json.load(open(p))
+        ev["violations"] = ev.get("violations", 0) + n
+        json.dump(ev, open(p, "w"), indent=1)
+    except Exception:
+        pass
+
+
+def c18(prop, tier, seed, a):
+    from . import irchecks, core, evidence, findings
+    t0 = time.time()
+    res, errs = irchecks.c18(tier)
+    repdir = os.path.join(VERIF, "evidence", "replay")
+    os.makedirs(repdir, exist_ok=True)
+    for f in os.listdir(repdir):
+        if f.startswith(prop + "-"):
+            os.unlink(os.path.join(repdir, f))
+    viol, unsup, nok, nq, st = [], [], 0, 0, 0.0
+    k = 0
+    seen = set()
+    for r in res:
+        nq += r.get("solver_queries", 0) or 0
+        st += r.get("solver_time_s", 0) or 0
+        fs = [f for f in r.get("findings", []) if f["kind"] == "erase"]
+        if fs:
+            key = (r["eraser"], r["storage"], r["cfg"], fs[0]["msg"])
+            rec = {k2: r.get(k2) for k2 in ("eraser", "storage", "size", "off", "len", "opt", "cfg", "client", "final_ir", "unit", "zero")}
+            rec["finding"] = fs[0]
+            if key in seen:
+                continue
+            seen.add(key)
+            k += 1
+            rp = irchecks.c18_replay(r, k) if k <= 6 else {"confirmed": None, "note": "not replayed"}
+            rec["replay_result"] = rp
+            if rp.get("confirmed") is False:
+                unsup.append(dict(rec, note="IR verdict not reproduced natively"))
+            else:
+                viol.append(rec)
+        elif not r.get("ok"):
+            unsup.append({k2: r.get(k2) for k2 in ("eraser", "storage", "size", "opt", "cfg", "unsupported", "where")})
+        else:
+            nok += 1
+    lines = []
+    for i, v in enumerate(viol[:8]):
+        path = os.path.join(repdir, "%s-%s-%d.json" % (prop, v["eraser"], i))
+        json.dump(v, open(path, "w"), indent=1, default=str)
+        lines.append("VIOLATION property=%s replay=%s" % (prop, path))
+        print("  violation: %s (%s buffer, client -O%s, %s): %s at byte %s" % (v["eraser"], v["storage"], v["opt"], v["cfg"], v["finding"]["msg"], v["finding"].get("byte")))
+    kf = findings.load()
+    for e in kf.open_for(prop):
+        print("KNOWN-FINDING: property=%s %s" % (prop, e["what"]))
+    for l in lines:
+        print(l)
+    samples = [{k2: r.get(k2) for k2 in ("eraser", "storage", "size", "off", "len", "opt", "cfg", "ok", "steps", "solver_queries", "erase_points")} for r in res[:10]]
+    ev = {"property_id": prop, "tier": tier, "seed": seed, "level": "model_checking",
+          "coverage": {"evaluations": len(res), "distinct_nontrivial": nok + len(viol),
+                       "rule": "one evaluation = one generated client program (eraser x storage class x object size/offset/length) compiled by clang-14 at one "
+                               "-O level, linked with the library IR (separately compiled at -O2, or whole-program optimised = LTO), executed symbolically "
+                               "from client() to the end of the buffer's lifetime; non-trivial when the executor reached that point and the solver decided "
+                               "every byte of the object",
+                       "samples": samples, "obligations": len(res), "discharged": nok, "solver_queries": nq, "solver_time_s": round(st, 2),
+                       "undecided": unsup[:20], "n_undecided": len(unsup), "build_errors": errs,
+                       "violations": [{k2: v.get(k2) for k2 in ("eraser", "storage", "opt", "cfg", "finding")} for v in viol[:10]],
+                       "functions_encoded": [e[0] for e in irchecks.ERASERS] + ["mem_prim_set", "mem_prim_set16", "mem_prim_set32"],
+                       "bounds": "object sizes 8..136 bytes, erase offset/length slices, fill value and prior contents symbolic; clang-14 -O0..-O3, "
+                                 "non-LTO and LTO (llvm-link + opt internalize,default<O2|O3>)", "exhaustive": False},
+          "assumptions": ["clang-14 pipelines only (gcc's optimiser is outside the claim: no IR an offline tool here can execute)",
+                          "scalar code generation (-fno-vectorize -fno-slp-vectorize -fno-unroll-loops)",
+                          "fences, inline-asm barriers and explicit_bzero are modelled by their contract (no-op / zero n bytes)",
+                          "the machine-code lowering of the final IR is trusted"],
+          "wall_s": round(time.time() - t0, 1), "violations": len(viol)}
+    if not getattr(a, "no_evidence", False):
+        os.makedirs(os.path.join(VERIF, "evidence"), exist_ok=True)
+        json.dump(ev, open(os.path.join(VERIF, "evidence", prop + ".json"), "w"), indent=1, default=str)
+    print("%s %s: %d client programs, %d erased as required, %d violations, %d undecided, %.0fs" % (prop, tier, len(res), nok, len(viol), len(unsup), time.time() - t0))
+    return 1 if viol else 0
+
+
+HANDLERS["C19"] = c19
+HANDLERS["C18"] = c18
